@@ -83,7 +83,11 @@ TPop ==
                           \cup RouteTags(S2, sp))
   /\ UNCHANGED <<I, HT, cfg, inp, res, baseRet, prevRet, primalMax, held, store>>
 TPopNone == Ev("pop_none") /\ devs' = Add(devs, Tag(S.fringe # EmptyBag, "C11 lost-items")) /\ UNCHANGED <<I, HT, cfg, S, cur, compiledCur, inp, res, baseRet, prevRet, primalMax, held, skipOK, store>>
-TFClear == Ev("fclear") /\ S' = [S EXCEPT !.fringe = EmptyBag] /\ UNCHANGED <<I, HT, cfg, cur, compiledCur, inp, res, baseRet, prevRet, primalMax, held, skipOK, store, devs>>
+\* emptying the fringe while it holds a node whose bound exceeds the incumbent (and no cutoff is involved) throws away a part of the
+\* search space that may hold the optimum
+TFClear == /\ Ev("fclear") /\ S' = [S EXCEPT !.fringe = EmptyBag]
+           /\ devs' = Add(devs, Tag(cfg.cut_at = 0 /\ \E x \in BagToSet(S.fringe) : x.ub > S.bestLb, IF I.long_arcs THEN "C15 open-nodes-discarded" ELSE "C01 open-nodes-discarded"))
+           /\ UNCHANGED <<I, HT, cfg, cur, compiledCur, inp, res, baseRet, prevRet, primalMax, held, skipOK, store>>
 
 \* ------------------------------------------------------------------ cache (C18 in situ); an EmptyCache run ignores updates
 TCGet ==
